@@ -309,6 +309,45 @@ def managers(prog, run):
                               % label, cfgx.describe_path(fn, res[bad[0]]))
             else:
                 run.ok(r3, fn.loc(succ_sites[0]), '%s: <success/> with %s is refused' % (qn.split('::')[-2], label))
+        # a challenge the mechanism rejects ends the exchange: the task is finished with an error and the manager is done
+        run.instance(r3)
+
+        def rej_custom(f, nid, st):
+            n = f.nodes[nid]
+            if n['k'] != 'call':
+                return None
+            sy = f.sym(n) or {}
+            objtxt = f.fmt(n['obj'], inline=True) if n.get('obj') is not None else ''
+            if sy.get('name') in ('operator bool', 'has_value'):
+                if 'QXmppSaslClient::respond(' in objtxt:
+                    return (False,)
+                if 'Challenge::fromDom' in objtxt:
+                    return (True,)
+                if 'Success::fromDom' in objtxt or 'Failure::fromDom' in objtxt or 'Continue::fromDom' in objtxt:
+                    return (False,)
+                if client_field in objtxt or 'm_promise' in objtxt or 'm_state' in objtxt:
+                    return (True,)
+            return None
+        rev = cfgx.Evaluator(fn, {}, custom=rej_custom)
+
+        def rej_transfer(f, nid, st):
+            n = f.nodes[nid]
+            if n['k'] == 'call':
+                is_finish = (n.get('op') == '()' and f.nodes[f.skip(n['opargs'][0])].get('name') == 'finish') or f.cname(n).endswith('::finish')
+                if is_finish:
+                    return st + ('finish',)
+            if n['k'] == 'ret' and 'e' in n:
+                v = f.const_value(n['e'])
+                return st + (('ret', v[1].split('::')[-1] if v else '?'),)
+            return None
+        rexits, _ = cfgx.explore(fn, (), rej_transfer, lambda f, c, st: rev.ev(c, st))
+        badr = [st for st in rexits if ('ret', 'Accepted') in st or (('finish' not in st) and any(isinstance(x, tuple) and x[0] == 'ret' and x[1] != 'Rejected' for x in st))]
+        if badr:
+            run.violation(r3, '%s#rejected-challenge-continues' % qn, fn.loc(),
+                          'a challenge the mechanism rejects (e.g. a wrong rspauth / server signature in a challenge) does not end the exchange: the manager keeps '
+                          'listening and a later <success/> is judged without the verification that already failed')
+        else:
+            run.ok(r3, fn.loc(), '%s: a rejected challenge finishes the task with an error' % qn.split('::')[-2])
         # sanity: an honest completion is accepted
         res = cfgx.sink_reachability(fn, hostile(True, True, True), succ_sites)
         if not any(res[x] is not None for x in succ_sites):
